@@ -234,11 +234,21 @@ server_step(void)
 static int feed_fd = -1;
 static uint8_t * feed_src;
 static size_t feed_off, feed_len;
+static size_t feed_max;		/* != 0: at most this many bytes per pass of the event loop (a peer that dribbles) */
 static void
 feed_step(void)
 {
 	ssize_t w;
+	size_t n;
 
+	if (feed_max != 0) {
+		if (feed_fd >= 0 && feed_off < feed_len) {
+			n = feed_len - feed_off < feed_max ? feed_len - feed_off : feed_max;
+			if ((w = write(feed_fd, feed_src + feed_off, n)) > 0)
+				feed_off += (size_t)w;
+		}
+		return;
+	}
 	while (feed_fd >= 0 && feed_off < feed_len && (w = write(feed_fd, feed_src + feed_off, feed_len - feed_off)) > 0)
 		feed_off += (size_t)w;
 }
@@ -1216,12 +1226,17 @@ main(void)
 			unlink(path);
 			sock_addr_freelist(sas);
 			finish_line(extra);
-		} else if (strcmp(hc_tok[0], "nbrv") == 0 && hc_ntok >= 4 && hc_ntok <= 12) {
+		} else if ((strcmp(hc_tok[0], "nbrv") == 0 && hc_ntok >= 4 && hc_ntok <= 12) ||
+		    (strcmp(hc_tok[0], "nbrd") == 0 && hc_ntok >= 5 && hc_ntok <= 13)) {
 			/*
 			 * nbrv <seed> <total> <c1> <c2> ...: buffered reader, waits of different sizes (so that the buffer is
 			 * grown while it holds consumed and unconsumed bytes); after a failed wait the visible bytes must be
 			 * unchanged, and the same wait is made again
+			 * nbrd <seed> <total> <step> <c1> <c2> ...: the same with a peer that sends at most <step> bytes per
+			 * pass of the event loop, so that a wait is satisfied by SEVERAL reads (the reader relaunches its
+			 * network read from inside the read callback)
 			 */
+			int dribble = hc_tok[0][3] == 'd';
 			uint64_t seed = strtoull(hc_tok[1], NULL, 10);
 			size_t total = strtoull(hc_tok[2], NULL, 10), consumed = 0, k;
 			struct netbuf_read * R;
@@ -1233,13 +1248,14 @@ main(void)
 			for (i = 0; i < total; i++)
 				src[i] = pat(seed, i);
 			feed_fd = sv[1]; feed_src = src; feed_off = 0; feed_len = total;
+			feed_max = dribble ? strtoull(hc_tok[3], NULL, 10) : 0;
 			feed_step();
 			nbr_visible = 0;
 			LIB(R = netbuf_read_init(sv[0]));
 			if (R == NULL)
 				failed = 1;
 			else {
-				for (k = 3; k < (size_t)hc_ntok && bad == NULL; k++) {
+				for (k = dribble ? 4 : 3; k < (size_t)hc_ntok && bad == NULL; k++) {
 					size_t chunk = strtoull(hc_tok[k], NULL, 10);
 					int rc;
 
@@ -1285,6 +1301,7 @@ main(void)
 			close(sv[0]); close(sv[1]);
 			free(src);
 			feed_fd = -1;
+			feed_max = 0;
 			finish_line(extra);
 		} else if (hc_is("aws", 2)) {
 			/*
